@@ -49,6 +49,15 @@ CHECKS = {
         design_ref="DESIGN.md §4 C11",
         note="Anonymous subquery names are canonicalised from the node's own text; exports compared as sorted node/edge lists without edge ids; path order is compared only when no generated name takes part in it.",
     ),
+    "C12": dict(
+        technique="history + session-balance monitors over recorded session events, fault injection at statements/lookups/line events (sys.monitoring), 16-thread stress with yield injection",
+        category="fault_enumeration",
+        text="Run B after a history of runs (failing statement at every position, provider raising at every lookup, InjectedFault at line events inside the run's work) "
+             "on default/shared/fresh providers must equal B in a fresh process; at every return or raise the session tap must balance and the provider must answer as "
+             "a fresh one; 16 threads with own providers/configs under seeded yield injection must reproduce the sequential records.",
+        design_ref="DESIGN.md §4 C12",
+        note="Faults are not injected inside the cleanup path itself (MetaDataSession.__exit__/deregister); line failpoints are sampled in quick, exhaustive per script in thorough.",
+    ),
     "C15": dict(
         technique="controlled-scheduler history monitor: real threads gated per step (and at sys.monitoring LINE events), per-thread sequential model",
         category="exploration",
